@@ -759,8 +759,10 @@ static void limits_pumps(void) {
         for (int i = 0; i < reps; i++) hb_puts(w, "X-Rep: v\r\n");
         hb_puts(w, dir ? "Content-Length: 0\r\n\r\n" : "\r\n");
         hx_script_init(&S); S.label = "repeated header name pump";
-        cx_build(&S, q.p, q.n, r.p, r.n, NULL, 0, 1);
-        if (!hx_run(&S, &O)) { n_exec++; n_calls += O.ncalls; hx_report_verdicts(&S, &O, PROPS); }
+        for (int chunking = 0; chunking < 2; chunking++) {
+            if (chunking) cx_build_uniform(&S, q.p, q.n, r.p, r.n, 100, 1); else cx_build(&S, q.p, q.n, r.p, r.n, NULL, 0, 1);
+            if (!hx_run(&S, &O)) { n_exec++; n_calls += O.ncalls; hx_report_verdicts(&S, &O, PROPS); }
+        }
     }
     /* max_tx: pipelined requests without responses, and unmatched responses */
     for (uint32_t mt = 1; mt <= 5; mt += (mt == 1 ? 1 : 3)) for (int kind = 0; kind < 2; kind++) for (int chunked = 0; chunked < 2; chunked++) {
@@ -780,16 +782,21 @@ static void steady_visit(const int *qs, const int *ss, void *ctx) {
     static gx_msg truth; static hx_buf q, r;
     hb_reset(&q); hb_reset(&r);
     gx_build(qs, ss, 1, 0, &truth, &q, &r);
-    hx_script_init(&S); S.cfg.auto_destroy = 1; S.cfg.log_level = HTP_LOG_NONE; S.light = 1; S.repeat = N;
-    static char lab[120]; hx_buf d = { 0 }; gx_describe(&d, qs, ss); hb_term(&d); snprintf(lab, sizeof lab, "steady state x%d of gen %s", N, (char *) d.p); hb_free(&d); S.label = lab;
-    hx_script_add(&S, OP_Q, q.p, (uint32_t) q.n); hx_script_add(&S, OP_S, r.p, (uint32_t) r.n); hx_script_add(&S, OP_FREED, NULL, 0);
-    if (hx_run(&S, &O)) return;
+    for (int group = 1; group <= 3; group++) {
+    /* group = number of exchanges between two htp_connp_tx_freed() calls (so that one call recycles several slots) */
+    hx_script_init(&S); S.cfg.auto_destroy = 1; S.cfg.log_level = HTP_LOG_NONE; S.light = 1; S.repeat = N / group;
+    static char lab[160]; hx_buf d = { 0 }; gx_describe(&d, qs, ss); hb_term(&d); snprintf(lab, sizeof lab, "steady state x%d of gen %s, tx_freed every %d", N, (char *) d.p, group); hb_free(&d); S.label = lab;
+    for (int g = 0; g < group; g++) { hx_script_add(&S, OP_Q, q.p, (uint32_t) q.n); hx_script_add(&S, OP_S, r.p, (uint32_t) r.n); }
+    hx_script_add(&S, OP_FREED, NULL, 0);
+    int want = (N / group) * group;
+    if (hx_run(&S, &O)) continue;
     n_exec++; n_calls += O.ncalls;
     cx_set_add(&outcomes, (uint64_t) O.steady[3] * 1315423911u + (uint64_t) id);
-    if (O.steady_n_total < N) { char m[300]; snprintf(m, sizeof m, "%s: only %d of %d transactions completed (statuses %d/%d)", lab, O.steady_n_total, N, O.final_in_status, O.final_out_status); hx_emit_script_violation("C10", "steady_incomplete", m, &S, &O); }
+    if (O.steady_n_total < want) { char m[300]; snprintf(m, sizeof m, "%s: only %d of %d transactions completed (statuses %d/%d)", lab, O.steady_n_total, want, O.final_in_status, O.final_out_status); hx_emit_script_violation("C10", "steady_incomplete", m, &S, &O); }
     else if (O.steady_growth_at) { char m[300]; snprintf(m, sizeof m, "%s: live heap at TRANSACTION_COMPLETE is %lld bytes after transaction 4 but differs at transaction %d (last: %lld bytes)", lab, (long long) O.steady[3], O.steady_growth_at, (long long) O.steady_last); hx_emit_script_violation("C10", "steady_growth", m, &S, &O); }
     hx_report_verdicts(&S, &O, PROPS);
-    if (id % 20 == 0) hx_emit_sample(lab);
+    if (id % 20 == 0 && group == 2) hx_emit_sample(lab);
+    }
 }
 static void mode_limits(int argc, char **argv) {
     int thorough = !strcmp(hx_tier, "thorough");
